@@ -283,7 +283,9 @@ func (f *Frame) localsAt(b *ssa.BasicBlock, includeOwnPhis bool) map[string]ssa.
 
 func (f *Frame) loopEnv(li *loopInfo, edgeFrom *ssa.BasicBlock) map[string]Val {
 	env := map[string]Val{}
-	for name, v := range f.localsAt(li.header, true) {
+	locals := f.localsAt(li.header, true)
+	for _, name := range sortedValueNames(locals) {
+		v := locals[name]
 		if phi, ok := v.(*ssa.Phi); ok && phi.Block() == li.header && edgeFrom != nil {
 			for i, p := range li.header.Preds {
 				if p == edgeFrom {
@@ -347,7 +349,9 @@ func (f *Frame) enterLoop(li *loopInfo) *BState {
 	// init obligations
 	if li.lc != nil && !f.dry {
 		env := map[string]Val{}
-		for name, v := range f.localsAt(li.header, true) {
+		locals := f.localsAt(li.header, true)
+		for _, name := range sortedValueNames(locals) {
+			v := locals[name]
 			if phi, ok := v.(*ssa.Phi); ok && phi.Block() == li.header {
 				env[name] = entryVals[phi]
 				continue
@@ -499,7 +503,8 @@ func (s *Session) frameAxiom(key, srt, nw, old, limit string, mods map[string][]
 		return "true"
 	}
 	var except []string
-	for mk, locs := range mods {
+	for _, mk := range sortedModKeys(mods) {
+		locs := mods[mk]
 		if mk == key || strings.HasPrefix(key, mk+".") {
 			for _, l := range locs {
 				except = append(except, not(eq("r", l.Ref)))
@@ -535,4 +540,13 @@ func (f *Frame) refsBelow(v Val, alloc string) string {
 		return app("<", x.Ref, alloc)
 	}
 	return "true"
+}
+
+func sortedValueNames(m map[string]ssa.Value) []string {
+	var ks []string
+	for k := range m {
+		ks = append(ks, k)
+	}
+	sort.Strings(ks)
+	return ks
 }
